@@ -10,6 +10,12 @@ replaying the same histories on both.
 namespace PhononModel.C15
 open PhononModel.Api
 
+/-- the only property of the numerical routines the theorems need: the setters of forces and
+energies leave the displacements of a dataset as they are -/
+structure Lawful (F : Fns) : Prop where
+  dispOf_setF : ∀ f v, F.dispOf (F.setF f v) = F.dispOf v
+  dispOf_setE : ∀ e v, F.dispOf (F.setE e v) = F.dispOf v
+
 /-- the one way to break coherence: the caller mutates an array the object can reach
 (the force-constant array kept by the setter or handed out by the getter, the NAC dict
 kept by the setter, the dataset dict handed out by the getter) -/
@@ -23,11 +29,66 @@ instance (s : St) (op : Op) : Decidable (MutatesReachable s op) := by
 theorem coherent_init (F : Fns) (m : Option Val) (fsf : Bool := false) : Coherent F (St.init m fsf) := by
   constructor <;> simp [St.init, Obj.init]
 
+/-- the forces / energies setters write into the object's own dataset -/
+theorem coherent_write_ds (F : Fns) (s : St) (ds : ArrRef) (w : Val) (hc : Coherent F s)
+    (hds : s.o.dataset = some ds) (hw : F.dispOf w = F.dispOf (s.h.cells ds)) :
+    Coherent F ⟨s.h.write ds w, s.o⟩ := by
+  have hk := hc.kindDs ds hds
+  have hne : ∀ r k, s.h.kind r = k → k ≠ .ds → (s.h.write ds w).cells r = s.h.cells r := by
+    intro r k hr hk'
+    have : r ≠ ds := by intro e; rw [e, hk] at hr; exact hk' hr.symm
+    simp [Heap.write, this]
+  have hnacv : s.o.nac.map (s.h.write ds w).cells = s.o.nac.map s.h.cells :=
+    map_cells_congr s.o.nac (fun r hr => hne r _ (hc.kindNac r hr) (by decide))
+  obtain ⟨c1, c2, c3, c4, c5, c6, c7, c8, c9, c10⟩ := hc
+  refine ⟨c1, c2, c3, c4, c5, c6, c7, ?_, c9, ?_⟩
+  · intro a m h1 h2
+    obtain ⟨d, d1, d2, d3, d4, d5⟩ := c8 a m h1 h2
+    refine ⟨d, d1, d2, ?_, ?_, ?_⟩
+    · simp only; rw [hnacv]; exact d3
+    · simp only; rw [hnacv]; exact d4
+    · simp only; rw [hne a _ (c4 a h1) (by decide)]; exact d5
+  · intro v hv
+    obtain ⟨r, r1, r2⟩ := c10 v hv
+    have : r = ds := by rw [hds] at r1; exact (Option.some.inj r1).symm
+    subst this
+    exact ⟨r, r1, by simp only [Heap.write, if_true]; rw [hw]; exact r2⟩
+
 /-- **coherence is preserved by every operation** except a caller's mutation of an array
 the object can reach (see `coherent_step_counterexample`). -/
-theorem coherent_step_partial (F : Fns) (s : St) (op : Op) (hc : Coherent F s)
+theorem coherent_step_partial (F : Fns) (hF : Lawful F) (s : St) (op : Op) (hc : Coherent F s)
     (hs : ¬ MutatesReachable s op) : Coherent F (step F s op).1 := by
   cases op with
+  | setForces f =>
+    simp only [step]
+    cases hds : s.o.dataset with
+    | none => exact hc
+    | some ds => exact coherent_write_ds F s ds _ hc hds (hF.dispOf_setF _ _)
+  | setEnergies e =>
+    simp only [step]
+    cases hds : s.o.dataset with
+    | none => exact hc
+    | some ds => exact coherent_write_ds F s ds _ hc hds (hF.dispOf_setE _ _)
+  | produceFcWith f =>
+    simp only [step]
+    cases hds : s.o.dataset with
+    | none => exact hc
+    | some ds =>
+      simp only
+      have hc1 := coherent_write_ds F s ds _ hc hds (hF.dispOf_setF f _)
+      apply setDMIfMasses_coherent
+      · refine ⟨?_, ?_, ?_, ?_, ?_, ?_, ?_, ?_⟩
+        · intro a' h'; simp only [Option.some.injEq] at h'; subst h'; simp [Heap.alloc]
+        · intro a' h'; exact Nat.lt_succ_of_lt (hc1.allocNac a' h')
+        · intro a' h'; exact Nat.lt_succ_of_lt (hc1.allocDs a' (hds.trans h'))
+        · intro a' h'; simp only [Option.some.injEq] at h'; subst h'; simp [Heap.alloc]
+        · intro a' h'; exact (alloc_kind_old (hc1.allocNac a' h')).trans (hc1.kindNac a' h')
+        · intro a' h'; exact (alloc_kind_old (hc1.allocDs a' (hds.trans h'))).trans (hc1.kindDs a' (hds.trans h'))
+        · intro h'; exact ⟨by simp, (hc1.gv_imp h').2⟩
+        · intro v hv
+          obtain ⟨r, r1, r2⟩ := hc1.disps v hv
+          exact ⟨r, hds.symm.trans r1, by rw [r2]; exact congrArg F.dispOf (alloc_cells_old (hc1.allocDs r r1)).symm⟩
+      · intro hm; exact hc1.dmNone (Or.inr hm)
   | newArr v own k =>
     exact hc.heap_congr (Nat.le_succ _)
       (fun a ha => ⟨alloc_cells_old (hc.allocFc a ha), alloc_kind_old (hc.allocFc a ha)⟩)
@@ -61,7 +122,7 @@ theorem coherent_step_partial (F : Fns) (s : St) (op : Op) (hc : Coherent F s)
         · intro h'; exact ⟨by simp, (hc.gv_imp h').2⟩
         · intro v hv
           obtain ⟨r, r1, r2⟩ := hc.disps v hv
-          exact ⟨r, hds.symm.trans r1, by rw [r2]; exact (alloc_cells_old (hc.allocDs r r1)).symm⟩
+          exact ⟨r, hds.symm.trans r1, by rw [r2]; exact congrArg F.dispOf (alloc_cells_old (hc.allocDs r r1)).symm⟩
       · intro hm; exact hc.dmNone (Or.inr hm)
   | symmetrizeFc level => exact inPlace_coherent F s _ hc
   | symmetrizeFcSpaceGroup => exact inPlace_coherent F s _ hc
@@ -216,18 +277,18 @@ instance decDisciplined (F : Fns) : ∀ (ops : List Op) (s : St), Decidable (Dis
     unfold Disciplined
     exact @instDecidableAnd _ _ _ (decDisciplined F ops _)
 
-theorem coherent_run_partial (F : Fns) (ops : List Op) : ∀ (s : St), Coherent F s →
+theorem coherent_run_partial (F : Fns) (hF : Lawful F) (ops : List Op) : ∀ (s : St), Coherent F s →
     Disciplined F s ops → Coherent F (run F s ops) := by
   induction ops with
   | nil => intro s hc _; exact hc
   | cons op ops ih =>
     intro s hc hd
-    exact ih _ (coherent_step_partial F s op hc hd.1) hd.2
+    exact ih _ (coherent_step_partial F hF s op hc hd.1) hd.2
 
 /-- every state reachable by a disciplined history — of any length — is coherent -/
-theorem coherent_reachable_partial (F : Fns) (m : Option Val) (ops : List Op)
+theorem coherent_reachable_partial (F : Fns) (hF : Lawful F) (m : Option Val) (ops : List Op)
     (hd : Disciplined F (St.init m) ops) : Coherent F (run F (St.init m) ops) :=
-  coherent_run_partial F ops _ (coherent_init F m) hd
+  coherent_run_partial F hF ops _ (coherent_init F m) hd
 
 /-- in a coherent state every query is answered from the *current* parameters (the values the
 object shows through its getters) — whatever the constructor options -/
@@ -294,11 +355,11 @@ theorem history_independent (F : Fns) (s₁ s₂ : St) (q : Query) (h₁ : Coher
   rw [answers_from_state F s₁ q h₁, answers_from_state F s₂ q h₂, he]
 
 /-- … in particular any two disciplined histories (of any lengths) ending in the same parameters -/
-theorem history_independent_runs (F : Fns) (m₁ m₂ : Option Val) (ops₁ ops₂ : List Op) (q : Query)
+theorem history_independent_runs (F : Fns) (hF : Lawful F) (m₁ m₂ : Option Val) (ops₁ ops₂ : List Op) (q : Query)
     (d₁ : Disciplined F (St.init m₁) ops₁) (d₂ : Disciplined F (St.init m₂) ops₂)
     (he : abs (run F (St.init m₁) ops₁) = abs (run F (St.init m₂) ops₂)) :
     (step F (run F (St.init m₁) ops₁) (.query q)).2.obs = (step F (run F (St.init m₂) ops₂) (.query q)).2.obs :=
-  history_independent F _ _ q (coherent_reachable_partial F m₁ ops₁ d₁) (coherent_reachable_partial F m₂ ops₂ d₂) he
+  history_independent F _ _ q (coherent_reachable_partial F hF m₁ ops₁ d₁) (coherent_reachable_partial F hF m₂ ops₂ d₂) he
 
 
 /-! ### the full statements, and where the current code refutes them
@@ -313,7 +374,14 @@ are replayed on the real `Phonopy` object by `./check C15` (known findings). -/
 def Fex : Fns :=
   { sym := fun l v => v + 1000 * (l + 1), symSG := fun v => v + 7, cut := fun r v => v + 13 * r + 1,
     produce := fun v => v + 500, symNac := fun v => v + 3, isWang := fun v => v % 2 == 1,
-    scale := fun v => 2 * v }
+    scale := fun v => 2 * v, setF := fun f v => v + 1000 * (f + 1), setE := fun e v => v + 1000000 * (e + 1),
+    dispOf := fun v => v % 1000 }
+
+theorem Fex_lawful : Lawful Fex :=
+  ⟨fun f v => Nat.add_mul_mod_self_left v 1000 (f + 1), fun e v => by
+    show (v + 1000000 * (e + 1)) % 1000 = v % 1000
+    have : 1000000 * (e + 1) = 1000 * (1000 * (e + 1)) := by rw [← Nat.mul_assoc]
+    rw [this]; exact Nat.add_mul_mod_self_left v 1000 _⟩
 
 /-- `a = array(5.)`; `ph.force_constants = a`; `ph.nac_params = {gonze}`; `run_qpoints`; `a[...] = 7.` -/
 def exStale : List Op :=
@@ -350,10 +418,10 @@ example : Disciplined Fex (St.init (some 1)) (exStale.take 5) := by decide
 rebuild of the dynamical matrix therefore scales once more. -/
 
 /-- setting the masses to the value they already have changes no answer (option unset) -/
-theorem same_masses_noop (F : Fns) (s : St) (m : Val) (q : Query) (hc : Coherent F s)
+theorem same_masses_noop (F : Fns) (hF : Lawful F) (s : St) (m : Val) (q : Query) (hc : Coherent F s)
     (hm : s.o.masses = some m) (hfsf : s.o.fsf = false) :
     (step F (step F s (.setMasses m)).1 (.query q)).2.obs = (step F s (.query q)).2.obs := by
-  have hc' := coherent_step_partial F s (.setMasses m) hc (by simp [MutatesReachable])
+  have hc' := coherent_step_partial F hF s (.setMasses m) hc (by simp [MutatesReachable])
   apply history_independent F _ _ q hc' hc
   simp only [step, setDMIfFc, fin]
   have ho : ({ s.o with masses := some m } : Obj) = s.o := by
@@ -373,7 +441,7 @@ def FullSameMassesNoop : Prop := ∀ (F : Fns) (s : St) (m : Val) (q : Query), C
 scales the force constants a second time -/
 theorem same_masses_noop_fsf_counterexample : ¬ FullSameMassesNoop := by
   intro h
-  have hc := coherent_run_partial Fex [.newArr 5 true .fc, .setFc 0] _ (coherent_init Fex (some 1) true) (by decide)
+  have hc := coherent_run_partial Fex Fex_lawful [.newArr 5 true .fc, .setFc 0] _ (coherent_init Fex (some 1) true) (by decide)
   exact absurd (h Fex _ 1 .freq hc (by decide)) (by decide)
 
 def FullRefinementAnyOption : Prop := ∀ (F : Fns) (s : St) (q : Query), Coherent F s →
@@ -383,7 +451,7 @@ def FullRefinementAnyOption : Prop := ∀ (F : Fns) (s : St) (q : Query), Cohere
 given it scales again -/
 theorem refinement_fsf_counterexample : ¬ FullRefinementAnyOption := by
   intro h
-  have hc := coherent_run_partial Fex [.newArr 5 true .fc, .setFc 0] _ (coherent_init Fex (some 1) true) (by decide)
+  have hc := coherent_run_partial Fex Fex_lawful [.newArr 5 true .fc, .setFc 0] _ (coherent_init Fex (some 1) true) (by decide)
   exact absurd (h Fex _ .freq hc) (by decide)
 
 /-! #### arrays handed in by the caller are not modified -/
@@ -398,18 +466,23 @@ theorem no_alias_in_counterexample : ¬ NoAliasIn := fun h =>
   absurd (h Fex (some 1) [.newArr 5 true .fc, .setFc 0] (.symmetrizeFc 1) 0 (by decide) (by intro v; exact Op.noConfusion))
     (by decide)
 
-/-- what does hold: the only pre-existing array an operation writes is the object's current
-force-constant array, and a pre-existing array becomes that only by being handed to the
-force-constant setter (which keeps it instead of copying). -/
+/-- what does hold: the only pre-existing cells an operation writes are the object's current
+force-constant array and its own dataset; a pre-existing array becomes the force-constant array
+only by being handed to the force-constant setter (which keeps it instead of copying); the
+stored dataset is never an object of the caller (the setter deep-copies). -/
 theorem no_alias_in_partial (F : Fns) (s : St) (op : Op) (a : ArrRef) (ha : a < s.h.next)
     (hop : ∀ v, op ≠ .callerMutates a v) :
-    (s.o.fc ≠ some a → (step F s op).1.h.cells a = s.h.cells a) ∧
-      ((step F s op).1.o.fc = some a → s.o.fc = some a ∨ op = .setFc a) := by
-  refine ⟨fun hfc => step_writes_only_fc F s op a ha hfc hop, fun hfc => ?_⟩
-  rcases step_fc F s op a hfc with h | h | h
-  · exact Or.inl h
-  · exact Or.inr h
-  · exact absurd ha (Nat.not_lt.mpr h)
+    (s.o.fc ≠ some a → s.o.dataset ≠ some a → (step F s op).1.h.cells a = s.h.cells a) ∧
+      ((step F s op).1.o.fc = some a → s.o.fc = some a ∨ op = .setFc a) ∧
+      ((step F s op).1.o.dataset = some a → s.o.dataset = some a) := by
+  refine ⟨fun hfc hds => step_writes_only_fc F s op a ha hfc hds hop, fun hfc => ?_, fun hds => ?_⟩
+  · rcases step_fc F s op a hfc with h | h | h
+    · exact Or.inl h
+    · exact Or.inr h
+    · exact absurd ha (Nat.not_lt.mpr h)
+  · rcases step_ds F s op a hds with h | h
+    · exact h
+    · exact absurd ha (Nat.not_lt.mpr h)
 
 /-- a history without caller mutations is disciplined -/
 theorem disciplined_of_no_mutation (F : Fns) (ops : List Op) (h : ∀ op ∈ ops, ∀ a v, op ≠ .callerMutates a v) :
@@ -431,7 +504,7 @@ def NoAliasOut : Prop := ∀ (F : Fns) (s : St) (q : Query) (a : ArrRef) (v : Op
 /-- `ph.force_constants = [[5.]]` (copied); `ph.force_constants` returns the internal array itself -/
 theorem no_alias_out_counterexample : ¬ NoAliasOut := by
   intro h
-  have hc := coherent_reachable_partial Fex (some 1) [.newArr 5 false .fc, .setFc 0] (by decide)
+  have hc := coherent_reachable_partial Fex Fex_lawful (some 1) [.newArr 5 false .fc, .setFc 0] (by decide)
   exact absurd (h Fex _ .getFc 1 (some 5) hc (by decide)) (by decide)
 
 /-- what does hold: only the three documented getters (`force_constants`, `nac_params`,
@@ -507,6 +580,13 @@ example : Disciplined Fex (St.init (some 1)) exHist := by decide
 example : (run Fex (St.init (some 1)) exHist).o.dm.map (fun d => (d.cls, d.gonze)) = some (.gl, some 511) := by decide
 example : (step Fex (run Fex (St.init (some 1)) exHist) (.query .freqGV)).2.obs
     = .phonons { ph := ⟨.gl, 511, some 5, 9⟩, gv := some ⟨.gl, 511, some 5, 9⟩ } := by decide
+/-- the forces setter writes into the object's own copy: the caller's dataset (cell 0) keeps its
+value, the object's dataset changes, the displaced supercells do not -/
+def exForces : List Op := [.newArr 4 true .ds, .setDataset (some 0), .query .getDisps, .setForces 2, .produceFcWith 1]
+example : Disciplined Fex (St.init (some 1)) exForces := by decide
+example : (run Fex (St.init (some 1)) exForces).h.cells 0 = 4 ∧
+    (step Fex (run Fex (St.init (some 1)) exForces) (.query .getDataset)).2.obs = .val (some 5004) ∧
+    (step Fex (run Fex (St.init (some 1)) exForces) (.query .getDisps)).2.obs = .val (some 4) := by decide
 /-- masses unknown (e.g. Tc): no dynamical matrix until masses are set -/
 example : (step Fex (run Fex (St.init none) [.newArr 5 true .fc, .setFc 0]) (.query .freq)).2 = .err .noDM := by decide
 example : (step Fex (run Fex (St.init none) [.newArr 5 true .fc, .setFc 0, .setMasses 3]) (.query .freq)).2.obs
@@ -514,6 +594,7 @@ example : (step Fex (run Fex (St.init none) [.newArr 5 true .fc, .setFc 0, .setM
 
 end PhononModel.C15
 
+#print axioms PhononModel.C15.Fex_lawful
 #print axioms PhononModel.C15.coherent_init
 #print axioms PhononModel.C15.coherent_step_partial
 #print axioms PhononModel.C15.coherent_reachable_partial
